@@ -75,6 +75,18 @@ SIGMA_R = [
     "#pragma x\n",
 ]
 
+# specifier-heavy vocabulary: reaches the _Atomic/_Alignas/type-name code paths
+SPEC_SIGMA = ["_Atomic", "_Alignas", "(", ")", "int", "[", "]", "1", "*", "a", ";", ",", "const", "T",
+              "struct", "{", "}", "sizeof", "="]
+SPEC_CONTEXTS = {
+    "atomic-decl": "typedef int T; _Atomic ( ",
+    "atomic-sizeof": "typedef int T; int q = sizeof ( _Atomic ( ",
+    "atomic-param": "typedef int T; void g ( _Atomic ( ",
+    "atomic-member": "typedef int T; struct S { _Atomic ( ",
+    "alignas": "typedef int T; _Alignas ( ",
+    "cast": "typedef int T; int q = ( ",
+}
+
 BRACKET_SIGMA = ["(", ")", "[", "]", "{", "}", "a", "1", ",", ";", "=", "int", "T", "*"]
 
 # context prefixes (name -> (prefix text, number of braces/parens left open))
